@@ -186,3 +186,20 @@ PROPS["C11"] = dict(
         "byte-level segmentation inside message reception (delegated to the read_exact contract, see C10)",
     ],
 )
+
+
+PROPS["C09"]["steps"].append(
+    dict(kind="kani", crate="humphrey", module="in_app", tag="c09", jobs=2,
+         unwind_rules=[(IOERR_REC, 1), ("id:memcmp.0", 64), (r"ascii_lowercase|ascii_uppercase|<str>::to_ascii|memchr|<\\[u8\\]>::eq|compare", 24)],
+         harnesses=[
+             H("c09_proxy_request_contract", "modular",
+               "proxy_request for every combination of {connect ok/refused, write ok/fails, upstream answer parses / stream error / malformed} and any timeout 1..3600 s: "
+               "always returns; upstream status+body passed through when all succeed, else 502 with the fixed body; nothing written without a connection; "
+               "a read timeout <= the configured timeout and a write timeout are set on the upstream socket before reading / writing",
+               timeout=900),
+         ]))
+PROPS["C09"]["kani_functions"] = [dict(file="humphrey/src/http/proxy.rs", item="proxy_request, proxy_request_internal", engine="kani")]
+PROPS["C09"]["assumptions"] += [
+    "contract stubs for TcpStream::connect_timeout / write / set_read_timeout / set_write_timeout and Response::from_stream (returns Ok(any) or Err(any)); format! and IpAddr Display stubbed (their text is not part of the obligation)",
+]
+PROPS["C09"]["not_covered"] += ["the bytes written upstream (request serialisation uses format!): 'request unchanged except X-Forwarded-For' is not decided", "route-prefix stripping in proxy_handler", "DNS resolution of targets (to_socket_addrs().unwrap() in proxy_handler)"]
